@@ -919,6 +919,12 @@ def _resolve_action_conflicts(
             for head in ordered_heads:
                 if head == picked_head:
                     continue
+                if (
+                    not is_active_flow(get_flow_state_from_head(state, head))
+                    or head.status != FlowHeadStatus.ACTIVE
+                ):
+                    # The flow was aborted together with a loosing flow of this group
+                    continue
                 competing_element = get_flow_config_from_head(state, head).elements[
                     head.position
                 ]
